@@ -5,6 +5,7 @@ import re
 import time
 
 VERIF = os.path.dirname(os.path.dirname(os.path.abspath(__file__)))
+OUT = os.environ.get("PEGV_OUT", VERIF)
 KNOWN = os.path.join(VERIF, "known_findings.json")
 
 
@@ -135,18 +136,18 @@ class Check:
             "wall_s": round(wall, 2),
             "violations": len(self.violations),
         }
-        os.makedirs(os.path.join(VERIF, "evidence"), exist_ok=True)
-        with open(os.path.join(VERIF, "evidence", "%s.json" % self.pid), "w") as f:
+        os.makedirs(os.path.join(OUT, "evidence"), exist_ok=True)
+        with open(os.path.join(OUT, "evidence", "%s.json" % self.pid), "w") as f:
             json.dump(ev, f, indent=1, sort_keys=True, default=str)
             f.write("\n")
         for h in self.known_hits:
             print("KNOWN-FINDING: property=%s %s [%s]" % (self.pid, h["what"], h["key"]))
         if self.violations:
-            os.makedirs(os.path.join(VERIF, "reports"), exist_ok=True)
+            os.makedirs(os.path.join(OUT, "reports"), exist_ok=True)
             n = 0
             for v in self.violations:
                 n += 1
-                path = os.path.join(VERIF, "reports", "%s-%d.json" % (self.pid, n))
+                path = os.path.join(OUT, "reports", "%s-%d.json" % (self.pid, n))
                 with open(path, "w") as f:
                     json.dump({"property": self.pid, "tier": self.tier, **v}, f, indent=1, default=str)
                 print("  rule=%s site=%s\n    %s\n    key=%s" % (v["rule"], v["site"], v["msg"], v["key"]))
